@@ -18,6 +18,11 @@ CLAIMED = {
    text="Seeded search over files (option swarm) and histories of SeekToRow/ReadRows/ReadPage/ReadValues/OffsetIndex operations; after every operation the rows or values returned must be exactly model[cursor:cursor+m], io.EOF only at the end, progress within 8 calls. Sampling of histories and configurations.",
    note="Seek targets within [0, NumRows]; forward-only readers are not given backward seeks; zero-length ReadValues is not exercised.",
    ref="DESIGN.md §4 C08"),
+ "C11": dict(level="exploration", engine="E1 storage-sim (differential through H3 switches)",
+   technique="deterministic simulation: seeded source row groups (files, buffers, merges, wrappers, a foreign RowGroup) written through WriteRowGroup twice - fast paths on, and forced onto the row path by verif-tagged switches - on simulated storage; outputs compared row by row and per-column metadata by metadata; path counters prove which path ran",
+   text="Seeded search over source kinds x source/destination option pairs (equal in half of the runs so the verbatim copy fires). Both executions must read back exactly source.Rows(); the fast output must carry the same codec, encodings, page type, bloom-filter and page-index presence and sorting metadata per column as the row-path output, respect MaxRowsPerRowGroup, start every indexed page on its row, and never route a semantic wrapper (convert, dedupe, foreign) through a chunk-level path.",
+   note="Where a dictionary falls back to PLAIN (DictionaryMaxBytes set) depends on page boundaries, so PLAIN and dictionary encodings are compared as one class in that configuration only. Expected rows are what source.Rows() returns.",
+   ref="DESIGN.md §4 C11"),
  "C13": dict(level="fault_enumeration", engine="E2 fault enumerator",
    technique="deterministic simulation with stored-byte fault injection: page bodies located from raw bytes, every sampled (byte, bit/burst) x access path re-executed on a simulated ReaderAt, oracle = ErrCorrupted and no wrong row",
    text="For each seeded file the harness enumerates bit flips and short bursts inside page bodies (data and dictionary pages) and drives eight access paths (sequential rows, Reader, typed reader, pages, seek into the page, seek past and back, ReadDictionary, value reader) until error/EOF; a path that needs the page must end with an error satisfying errors.Is(err, ErrCorrupted), deliver no wrong row and not panic. Positions are enumerated per sampled file (quick: sampled bytes, thorough: more bytes x all 8 bits); files are sampled.",
